@@ -137,6 +137,10 @@ func NewSendSideBWE(opts ...Option) (*SendSideBWE, error) {
 		send.pacer = newLeakyBucketPacer(send.latestBitrate, send.loggerFactory)
 	}
 	send.lossController = newLossBasedBWE(send.latestBitrate, send.loggerFactory)
+	// The loss controller has limits of its own; they must not be looser than the configured
+	// ones, or the published target (the minimum of both controllers) leaves [minBitrate, maxBitrate].
+	send.lossController.minBitrate = max(send.lossController.minBitrate, send.minBitrate)
+	send.lossController.maxBitrate = min(send.lossController.maxBitrate, send.maxBitrate)
 	send.delayController = newDelayController(delayControllerConfig{
 		nowFn:          time.Now,
 		initialBitrate: send.latestBitrate,
